@@ -27,14 +27,14 @@ Theorem C14_underscore_refuted : display "_" = "_" /\ ident_token_ok (display "_
 Proof. exact underscore_refuted. Qed.
 Print Assumptions C14_underscore_refuted.
 
-(* constants do not go through Display at all (finding F-14n; visible with change_case off) *)
-Theorem C14_const_keyword_refuted :
+(* constants go through Display as well (fix F-14n): a const called like a keyword is escaped *)
+Theorem C14_const_keyword_escaped :
   forall (conv : kind -> string -> string),
     let scope := [mkSib KConst "in" None] in
-    emitted conv false scope (mkSib KConst "in" None) = "in" /\
-    plain_ident "in" = true /\ ident_token_ok (emitted conv false scope (mkSib KConst "in" None)) = false.
-Proof. exact const_keyword_refuted. Qed.
-Print Assumptions C14_const_keyword_refuted.
+    emitted conv false scope (mkSib KConst "in" None) = "r#in" /\
+    ident_token_ok (emitted conv false scope (mkSib KConst "in" None)) = true.
+Proof. exact const_keyword_escaped. Qed.
+Print Assumptions C14_const_keyword_escaped.
 
 (* ---- collision rule: siblings whose converted names coincide keep their original spelling ---------------- *)
 (* for ANY case conversion that is idempotent on the names of the scope, siblings of one kind with pairwise
